@@ -323,6 +323,75 @@ def gcpWld2pix (Q : Pt → Pt) (g : GeoBox) (w : Pt) : Res Pt := do
 /-- `GCPGeoBox.approx`: `GeoBox(shape, mapping.approx * affine, crs)` -/
 def gcpApprox (B : Aff) (g : GeoBox) : GeoBox := mulWld B g
 
+/-! ### `alignment` (geobox.py:187-195): `(tx % |rx|, ty % |ry|)`, Python float `%` -/
+
+/-- Python `x % m` for `m > 0` on reals: `x - ⌊x/m⌋·m`; `ZeroDivisionError` for `m = 0`. -/
+def pyFMod (x m : Rat) : Res Rat := if m = 0 then .error .zeroDiv else .ok (x - ((x / m).floor : Rat) * m)
+
+def alignment (g : GeoBox) : Res (Rat × Rat) := do
+  let ax ← pyFMod g.A.c (rabs g.A.a)
+  let ay ← pyFMod g.A.f (rabs g.A.e)
+  pure (ax, ay)
+
+/-! ### `boundary(pts_per_side)` (geobox.py:172-185, roi.py:392-407, math.py:511-539)
+
+`linspace(0, N, n)` on both axes (the float32 rounding of the code is outside the exact
+arithmetic) and the edge walk of `edge_index((n, n))`: top row left→right, right column
+downwards, bottom row right→left, left column upwards, not closed. -/
+
+def linspace (N : Int) (n : Nat) : List Rat :=
+  if n = 1 then [0]
+  else (List.range n).map (fun (i : Nat) => (i : Rat) * ((N : Rat) / ((n : Rat) - 1)))
+
+/-- `edge_index((n, n))` as `(ix, iy)` index pairs -/
+def edgeIndex (n : Nat) : List (Nat × Nat) :=
+  (List.range n).map (fun i => (i, 0)) ++
+  (List.range (n - 1)).map (fun j => (n - 1, j + 1)) ++
+  (List.range (n - 1)).reverse.map (fun i => (i, n - 1)) ++
+  (List.range (n - 2)).reverse.map (fun j => (0, j + 1))
+
+def boundary (g : GeoBox) (n : Nat) : List Pt :=
+  let xs := linspace g.nx n
+  let ys := linspace g.ny n
+  (edgeIndex n).filterMap (fun ij => match xs[ij.1]?, ys[ij.2]? with
+    | some x, some y => some (x, y)
+    | _, _ => none)
+
+/-- footprint ring of a non-linear (GCP) geobox: `boundary(16)` mapped through `pix2wld`
+(geobox.py:215-218; shapely closes the ring) -/
+def gcpExtent (P : Pt → Pt) (g : GeoBox) : List Pt := (boundary g 16).map (gcpPix2wld P g)
+
+/-! ### `enclosing(region)` (geobox.py:686-706), region in the geobox' CRS
+
+Like the region crop but *not* clipped to the image: rounded-out pixel bounding box of the
+projected vertices, at least one pixel, on the same pixel grid. -/
+def enclosing (g : GeoBox) (pts : List Pt) : Res GeoBox := do
+  let Ai ← g.A.inv?
+  match pts.map Ai.apply with
+  | [] => .error .valueError
+  | p :: ps =>
+    let xs := (p :: ps).map (·.1)
+    let ys := (p :: ps).map (·.2)
+    let l := (C17.minL 0 xs).floor
+    let b := (C17.minL 0 ys).floor
+    let r := (C17.maxL 0 xs).ceil
+    let t := (C17.maxL 0 ys).ceil
+    pure ⟨max 1 (t - b), max 1 (r - l), g.A * Aff.translation (l : Rat) (b : Rat), g.crs⟩
+
+/-! ### `GCPGeoBox.gcps()` (gcp.py:282-300) and `map_bounds` (geobox.py:784-795) -/
+
+/-- control points `(pix, wld)` re-expressed in the pixel space of the view: `(~affine) * pix` -/
+def gcpGcps (g : GeoBox) (cps : List (Pt × Pt)) : Res (List (Pt × Pt)) := do
+  let Ai ← g.A.inv?
+  pure (cps.map (fun cp => (Ai.apply cp.1, cp.2)))
+
+/-- `map_bounds()` without reprojection (no CRS, or already lon/lat): `((y0, x0), (y1, x1))`
+from footprint vertices 0 and 2 -/
+def mapBounds (g : GeoBox) : (Rat × Rat) × (Rat × Rat) :=
+  let p0 := pix2wld g (0, 0)
+  let p2 := pix2wld g ((g.nx : Rat), (g.ny : Rat))
+  ((p0.2, p0.1), (p2.2, p2.1))
+
 /-! ### model selection of the GCP fit (`Poly2d.fit`, math.py:693-714)
 
 Number of polynomial terms fitted to `n` control points: 3 (affine) for `n = 3`, 4 (bilinear)
